@@ -432,7 +432,7 @@ def r05_4(prog, tab):
             if subj is None or subj.kind == "call":
                 r.ok(f, key, "member result returned/inspected in place", e["line"], nontrivial=False)
                 continue
-            hits = assume.explore(f, b, i, subj, 1, lambda b_, i_, e_, env=None: "success", origin_callid=e.get("id"), from_entry=False)
+            hits = assume.explore(f, b, i, subj, 1, lambda b_, i_, e_, env=None: "success", origin_callid=e.get("id"), from_entry=False, subject_return_ok=False)
             bad = None
             for kind, rb, ri, re, path, lost in hits:
                 if kind == "abort":
